@@ -23,6 +23,7 @@ OCAML = os.path.join(ROOT, 'ocaml')
 GO = os.path.join(ROOT, 'go')
 WORK = os.path.join(ROOT, '.work')
 BIN = os.path.join(WORK, 'bin')
+TIMING_COMPONENTS = {14, 1401}
 REPO = os.environ.get('VERIF_REPO', '/repo')   # the seed runs of lib/seed_universe.sh use a scratch copy
 
 GOENV = dict(os.environ, GOFLAGS='-mod=mod', GOPROXY='off', GOSUMDB='off', GOTOOLCHAIN='local',
@@ -430,6 +431,33 @@ def check(pid, tier, seed, replay=None):
                 mo = model_out.get(tag)
                 if mo != obs:
                     mismatches.append((tag, comp, ins, obs, mo))
+            # Components that drive a REAL main loop with real (short) timers can observe a starved process (the
+            # candidate sessions 14/1401: an answer not yet consumed, a 15 ms timer that fired twice). A disagreement of
+            # such a case is believed only if it repeats when the case is run again alone: a wrong decision of the code
+            # repeats, a descheduled process does not. (A false alarm of this kind was seen once on the unchanged tree
+            # while other jobs ran beside the check; the replay of the same case agreed 3 of 3 times.)
+            timing = [x for x in mismatches if int(x[1]) in TIMING_COMPONENTS]
+            if timing and not replay and len(timing) <= 40:
+                confirmed = []
+                for x in timing:
+                    again = 0
+                    for k in range(2):
+                        rf = os.path.join(wd, 'confirm_%s_%d.in' % (x[0], k))
+                        with open(rf, 'w') as f:
+                            f.write('%s %s %s\n' % (x[0], x[1], ' '.join(str(v) for v in x[2])))
+                        of = os.path.join(wd, 'confirm_%s_%d.cases' % (x[0], k))
+                        sh([os.path.join(BIN, 'harness'), 'replay', rf, '0', of], cwd=wd, timeout=300)
+                        try:
+                            rc_cases, _, _, _ = parse_cases(of)
+                        except Exception:
+                            rc_cases = []
+                        if any(c[0] == x[0] and c[3] != model_out.get(x[0]) for c in rc_cases):
+                            again += 1
+                    if again >= 1:
+                        confirmed.append(x)
+                    else:
+                        stats['timing_mismatch_not_reproduced'] = stats.get('timing_mismatch_not_reproduced', 0) + 1
+                mismatches = [x for x in mismatches if int(x[1]) not in TIMING_COMPONENTS] + confirmed
             cross_n, cross_bad = coq_crosscheck(mcases, model_out, wd, k=spec.get('crosscheck', 150), seed=seed)
 
     # ---- monitors: the property predicate on the implementation
